@@ -70,4 +70,12 @@ NOTES['C14'] = {'technique': 'Lean 4 proof (inductive invariant of the drain-sta
     'note': 'Trusted: Lean kernel; skeleton extractor; the reading of the snapshot into the model locations (manual, documented in Conc/Drain.lean); atomics sequentially consistent, mutex exclusion. '
             'PARTIAL: liveness is proved in safety form (no stranded quiescent state + progress); Go scheduler fairness is assumed; custom (non-default) executors do not reschedule by design and are outside the property.'}
 
+NOTES['C16'] = {'technique': 'Lean 4 proof (index arithmetic of the regenerated MPSC offset/limit functions) + skeleton equality + exact sequential differential + concurrent delivery-log judge',
+    'engine': 'proof+gen-skeleton+unit-mpsc+conc-mpsc',
+    'text': 'Theorems for all 64-bit indices and masks over Gen.MpscIdx (translated from mpsc.go every run): element offsets stay inside the chunk and never hit the link slot; link slot = last slot; free-space and full test exact. '
+            'Skeletons of TryPush/pushSlowPath/resize/TryPop/getNextBuffer/newBufferTryPush/newBufferAndOffset must equal the snapshot. '
+            'Tie: UNIT-mpsc (exact index words + bounded-FIFO and refuse-iff-full oracle across all growth steps); CONC-mpsc (exactly once, per-producer order, no refusal below capacity with real goroutines).',
+    'note': 'Trusted: Lean kernel; translator; differential/concurrent runs bounded by generation and the Go scheduler. PARTIAL: the sequential refinement to a bounded FIFO for every operation sequence and the concurrent exactly-once invariant (all interleavings) are not mechanised; '
+            'they are enforced by the oracles on every run and by skeleton equality (any reordering of the CAS/publish/jump steps breaks an obligation).'}
+
 NOT_APPLICABLE = {}
